@@ -173,6 +173,10 @@ theorem WSat.updateLocalHeader_none' {β} {s : WState} {file : FileData} {k : Un
       ∀ d', Q (.error (.io .other), s) d') :
     WSat (Model.updateLocalHeader s file k) none d Q := by
   unfold Model.updateLocalHeader
+  split
+  · next hg =>
+    simp only [Bool.and_eq_true, Bool.not_eq_true', decide_eq_true_eq] at hg
+    exact WSat.pure (hbig hg.1 hg.2 d)
   apply WSat.io_none (MSat.seekStart _ none d); intro _ d1 _
   apply WSat.io_none (MSat.writeAll _ none d1); intro _ d2 _
   split
@@ -180,12 +184,9 @@ theorem WSat.updateLocalHeader_none' {β} {s : WState} {file : FileData} {k : Un
     apply WSat.io_none (MSat.writeAll _ none d3); intro _ d4 _
     apply WSat.io_none (MSat.writeAll _ none d4); intro _ d5 _
     exact hk d5
-  · next hl =>
-    split
-    · next hb => exact WSat.pure (hbig (by simpa using hl) hb d2)
-    · apply WSat.io_none (MSat.writeAll _ none d2); intro _ d3 _
-      apply WSat.io_none (MSat.writeAll _ none d3); intro _ d4 _
-      exact hk d4
+  · apply WSat.io_none (MSat.writeAll _ none d2); intro _ d3 _
+    apply WSat.io_none (MSat.writeAll _ none d3); intro _ d4 _
+    exact hk d4
 
 theorem WSat.updateLocalHeader_none {β} {s : WState} {file : FileData} {k : Unit → M (Except ZErr β × WState)}
     {d : Dev} {Q : Except ZErr β × WState → Dev → Prop}
